@@ -434,28 +434,31 @@ def apply_step(root, step, FST):
     elif op == 'unpar':
         t.unpar()
     elif op == 'unpar_redundant':
-        # unpar() is documented as doing no parsability validation; it is judged only on parentheses that CPython itself
-        # finds redundant: blanking them (same length, newlines kept) must leave the parsed structure unchanged
+        # unpar() is documented as doing no parsability validation; it is judged only on parentheses that are redundant for CPython:
+        # deleting them - keeping one space where the deletion would join two alphanumeric characters, the one lexical case pfst
+        # documents handling ('if(b)else') - must leave the parsed structure unchanged. '(1).real' -> '1.real' is therefore not judged.
         pl = t.pars()
         if not getattr(pl, 'n', 0):
             raise StepNotApplicable('no grouping parentheses')
         ln, col, end_ln, end_col = t.loc
-        lines = root.src.split('\n')
-
-        def blank(l0, c0, l1, c1):
-            for l in range(l0, l1 + 1):
-                a = c0 if l == l0 else 0
-                b = c1 if l == l1 else len(lines[l])
-                lines[l] = lines[l][:a] + ''.join(' ' if ch in '()' else ch for ch in lines[l][a:b]) + lines[l][b:]
-        seg_open = '\n'.join(lines[pl.ln:ln + 1])
-        blank(end_ln, end_col, pl.end_ln, pl.end_col)
-        blank(pl.ln, pl.col, ln, col)
+        src = root.src
+        ls = src.split('\n')
+        ot = [0]
+        for l in ls:
+            ot.append(ot[-1] + len(l) + 1)
+        a0, a1, b0, b1 = ot[pl.ln] + pl.col, ot[ln] + col, ot[end_ln] + end_col, ot[pl.end_ln] + pl.end_col
+        if '#' in src[a0:a1] or '#' in src[b0:b1]:
+            raise StepNotApplicable('parentheses hold a comment')
+        alnum = lambda ch: ch.isalnum() or ch == '_'
+        j1 = ' ' if a0 > 0 and alnum(src[a0 - 1]) and alnum(src[a1]) else ''
+        j2 = ' ' if b1 < len(src) and alnum(src[b0 - 1]) and alnum(src[b1]) else ''
+        v = src[:a0] + j1 + src[a1:b0] + j2 + src[b1:]
         try:
-            same = ast.dump(ast.parse('\n'.join(lines))) == ast.dump(ast.parse(root.src))
+            same = ast.dump(ast.parse(v)) == ast.dump(ast.parse(src))
         except SyntaxError:
             same = False
-        if not same or '#' in seg_open:
-            raise StepNotApplicable('parentheses are not redundant per CPython (or hold a comment)')
+        if not same:
+            raise StepNotApplicable('parentheses are not redundant per CPython')
         t.unpar()
     else:
         raise AssertionError('unknown op ' + op)
